@@ -1584,6 +1584,12 @@ impl<'p, 'w, W: Write> DesignatorWriter<'p, 'w, W> {
         if self.written_non_zero_unit {
             if self.printer.comma_after_designator {
                 self.wtr.write_str(",")?;
+                // A comma must be followed by whitespace, otherwise the
+                // result can't be parsed. So when spacing is disabled, we
+                // forcefully insert a space here.
+                if matches!(self.printer.spacing, Spacing::None) {
+                    self.wtr.write_str(" ")?;
+                }
             }
             self.wtr.write_str(self.printer.spacing.between_units())?;
         }
